@@ -12,6 +12,9 @@
 //   vbft-header-sigcount-below-C+1:c+1-wraps-uint32       … under a configuration with C = 2^32-1 (uint32(C+1) = 0)
 //   vbft-header-stale-config                              enough signatures, but of the members of an OLDER configuration that the
 //                                                         header itself named through LastConfigBlockNum
+//   accepted:<what>                                       an accepted header lacks something even the shipped check guarantees
+//                                                         (members only, m bookkeepers, C+1 listed, m valid signatures of listed
+//                                                         bookkeepers, extends the tip) - never expected
 package main
 
 import (
@@ -301,6 +304,36 @@ func exec(line string) hx.Result {
 				}
 			}
 			return nn
+		}
+		// what the shipped check does establish (a mutant that loses one of these gets its own class)
+		if usedCfg == nil {
+			fail("accepted:no-configuration", fmt.Sprintf("op %d accepted although the configuration height %d it names holds no configuration", oi, usedH))
+		} else {
+			m := mOf(len(usedCfg.ids))
+			distinctBk := map[int]bool{}
+			for _, b := range bkNums {
+				distinctBk[b] = true
+				if !usedCfg.ids[b] {
+					fail("accepted:nonmember-bookkeeper", fmt.Sprintf("op %d accepted with bookkeeper %d that is not in the configuration of height %d", oi, b, usedH))
+				}
+			}
+			if len(bkNums) < m {
+				fail("accepted:fewer-than-m-bookkeepers", fmt.Sprintf("op %d accepted with %d bookkeepers, m = %d", oi, len(bkNums), m))
+			}
+			if usedCfg.c != 0xFFFFFFFF && uint64(len(distinctBk)) < uint64(usedCfg.c)+1 {
+				fail("accepted:fewer-than-C+1-listed", fmt.Sprintf("op %d accepted with %d distinct listed members, C+1 = %d", oi, len(distinctBk), uint64(usedCfg.c)+1))
+			}
+			if len(signerSeq) < m {
+				fail("accepted:fewer-than-m-signatures", fmt.Sprintf("op %d accepted with %d signatures, m = %d", oi, len(signerSeq), m))
+			}
+			for i := 0; i < m && i < len(signerSeq); i++ {
+				if signerSeq[i] < 0 || !distinctBk[signerSeq[i]] {
+					fail("accepted:invalid-signature-counted", fmt.Sprintf("op %d accepted although signature #%d (among the first m = %d) is not a valid signature of a listed bookkeeper", oi, i, m))
+				}
+			}
+		}
+		if height != prevAcc.height+1 || hdr.PrevBlockHash != prevAcc.hdr.Hash() || hdr.Timestamp <= prevAcc.hdr.Timestamp {
+			fail("accepted:not-extending-the-tip", fmt.Sprintf("op %d accepted although it does not extend the newest header (height/prev/timestamp)", oi))
 		}
 		if trueCfg == nil {
 			fail("accepted-without-governing-config", fmt.Sprintf("op %d accepted, no configuration below height %d", oi, height))
